@@ -2,16 +2,19 @@
 """mk_mutant.py <out.diff> <file-in-repo> <old> <new> : writes a one-edit patch, made in a scratch
 worktree (never touches /repo's working tree)."""
 import subprocess, sys, os, tempfile, shutil
-out, path, old, new = sys.argv[1:5]
+out, path = sys.argv[1:3]
+pairs = list(zip(sys.argv[3::2], sys.argv[4::2]))
 wt = tempfile.mkdtemp(prefix="verif-mkmut-", dir="/var/tmp")
 os.rmdir(wt)
 subprocess.check_call(["git", "-C", "/repo", "worktree", "add", "--detach", wt, "HEAD"], stdout=subprocess.DEVNULL, stderr=subprocess.DEVNULL)
 try:
     p = os.path.join(wt, path)
     s = open(p).read()
-    if old not in s:
-        sys.exit("pattern not found in " + path)
-    open(p, "w").write(s.replace(old, new, 1))
+    for old, new in pairs:
+        if old not in s:
+            sys.exit("pattern not found in " + path + ": " + old[:60])
+        s = s.replace(old, new, 1)
+    open(p, "w").write(s)
     d = subprocess.check_output(["git", "-C", wt, "diff"], text=True)
     os.makedirs(os.path.dirname(out), exist_ok=True)
     open(out, "w").write(d)
